@@ -87,8 +87,10 @@ type Doc struct {
 	accCache []accInfo
 	ExtInUse map[string]string // extension name -> first place of use
 	// stats
-	Misaligned int
-	MinMaxSeen int
+	Misaligned      int
+	NonFiniteStored int // NaN / ±Inf components seen in accessors with min/max
+	MinMaxNoDemand  int // min/max columns without any NaN-free element
+	MinMaxSeen      int
 }
 
 func (d *Doc) add(class, site, format string, a ...any) {
@@ -511,14 +513,35 @@ func (d *Doc) Check() {
 			} else {
 				d.MinMaxSeen++
 				vals := d.decode(at.base, at.stride, at.ct, at.n, at.cnt)
+				// Non-finite data: the writer keeps NaN-carrying elements out of min/max (whole element on
+				// the unchanged tree). Accepted: min/max over the elements without any NaN component (A), or
+				// over the non-NaN components of each column (B). No contributing element => no demand.
+				nanElem := make([]bool, cnt)
+				for e := 0; e < cnt; e++ {
+					for k := 0; k < n; k++ {
+						if v := vals[e*n+k]; v != v {
+							nanElem[e] = true
+							d.NonFiniteStored++
+						} else if math.IsInf(v, 0) {
+							d.NonFiniteStored++
+						}
+					}
+				}
 				for k := 0; k < n; k++ {
-					lo, hi := math.Inf(1), math.Inf(-1)
+					loA, hiA := math.Inf(1), math.Inf(-1)
+					loB, hiB := math.Inf(1), math.Inf(-1)
+					nA, nB := 0, 0
 					for e := 0; e < cnt; e++ {
 						v := vals[e*n+k]
 						if v != v {
 							continue
 						}
-						lo, hi = math.Min(lo, v), math.Max(hi, v)
+						loB, hiB = math.Min(loB, v), math.Max(hiB, v)
+						nB++
+						if !nanElem[e] {
+							loA, hiA = math.Min(loA, v), math.Max(hiA, v)
+							nA++
+						}
 					}
 					dlo, ok1 := asNum(mn[k])
 					dhi, ok2 := asNum(mx[k])
@@ -529,8 +552,14 @@ func (d *Doc) Check() {
 					if ct == ctFloat { // compared in float32
 						dlo, dhi = float64(float32(dlo)), float64(float32(dhi))
 					}
-					if dlo != lo || dhi != hi {
-						d.add("minmax-mismatch", siteMinMax, "accessors[%d] %s component %d: declared min/max %v/%v, stored data has %v/%v (count %d)", i, typ, k, mn[k], mx[k], lo, hi, cnt)
+					if nA == 0 {
+						d.MinMaxNoDemand++
+						continue
+					}
+					okA := dlo == loA && dhi == hiA
+					okB := nB > 0 && dlo == loB && dhi == hiB
+					if !okA && !okB {
+						d.add("minmax-mismatch", siteMinMax, "accessors[%d] %s component %d: declared min/max %v/%v, stored data has %v/%v over NaN-free elements (%v/%v over non-NaN components; count %d)", i, typ, k, mn[k], mx[k], loA, hiA, loB, hiB, cnt)
 						break
 					}
 				}
